@@ -5,6 +5,7 @@ From Coq Require Import List Arith Bool.
 Require Import TT.Model.Base TT.Model.Str TT.Model.C07TypeParse TT.Model.C07Harvest TT.Model.C07Worklist TT.Model.C07Reach TT.Model.Topo.
 Require Import TT.Spec.TsModule TT.Spec.TsObs TT.Spec.C07Spec TT.Spec.C07Known TT.Spec.C09Spec TT.Spec.C09Known TT.Model.C09Module.
 Require Import TT.Proofs.TopoProofs TT.Proofs.C20Extra TT.Proofs.C09Proofs TT.Proofs.C09Acyclic TT.Proofs.C07Lift TT.Proofs.C09Full TT.Proofs.C07Total TT.Proofs.C09Oracle TT.Proofs.C09ModuleProofs TT.Proofs.C09Witness.
+Require Import TT.Model.C09Text TT.Proofs.C09Text TT.Proofs.C09TextEx.
 Import ListNotations.
 
 (* For every iteration order of every hash collection and every project of the documented feature set
@@ -64,6 +65,61 @@ Theorem C09_module_decl_before_use_mapped : forall (o : orders) (p : project) (m
   acyclic (spec_graph p) -> no_params_suffix p = true ->
   zod_consts_m m o p = Some cs -> decl_before_use cs = true.
 Proof. intros o p m cs Ho Hd K5 K6 K7 K8 Hac Hnp H. exact (module_decl_before_use_m o Ho p Hd K5 K6 K7 K8 Hac Hnp m cs H). Qed.
+
+(* ---- text level (deepening round 7): declare-before-use as a statement about the TEXT of the constants.
+   Composition with C10's round trips C10_struct_schema_text_denotes / C10_param_schema_text_denotes: the text
+   schema.ts.tera / param_schemas.ts.tera print for a declaration (Model/C10ZodText.v struct_schema_text,
+   param_schema_text, no type mappings) is lexed and parsed by the specification parser (text_ids = ex_ids of
+   parse_ex); the members s / d may carry any keys and optional flags, their types are the parsed field /
+   parameter strings of the project (struct_sdef, cmd_cdef). C10's premises are explicit in line_ok: keys that
+   are identifier names, types in C10's domain, call / literal nesting of a member schema below 62. ---- *)
+(* the identifiers read from the printed struct schema are z and exactly the schema names of the custom names
+   of its fields; as a list they are the identifiers of the module model *)
+Theorem C09_struct_identifiers_text : forall p n s x,
+  struct_sdef p n s -> Forall line_ok (TT.Model.C10Zod.s_fields s) ->
+  (In x (text_ids (TT.Model.C10ZodText.struct_schema_text [] s)) <->
+   x = L "z" \/ exists r, In r (schema_refs p n) /\ x = schema_name r).
+Proof. exact struct_text_identifiers. Qed.
+Theorem C09_struct_ids_text : forall p n s,
+  struct_sdef p n s -> Forall line_ok (TT.Model.C10Zod.s_fields s) ->
+  text_ids (TT.Model.C10ZodText.struct_schema_text [] s) = struct_ids p n.
+Proof. exact struct_text_ids. Qed.
+(* the same for the parameter schema of a command (an optional parameter has a second .optional() link) *)
+Theorem C09_params_identifiers_text : forall c d x,
+  cmd_cdef c d -> Forall line_ok (TT.Model.C10Zod.c_params d) ->
+  (In x (text_ids (TT.Model.C10ZodText.param_schema_text [] d)) <->
+   x = L "z" \/ exists t r, In t (cmd_params c) /\ In r (ts_of (tstr t)) /\ x = schema_name r).
+Proof. exact param_text_identifiers. Qed.
+Theorem C09_params_ids_text : forall c d,
+  cmd_cdef c d -> Forall line_ok (TT.Model.C10Zod.c_params d) ->
+  text_ids (TT.Model.C10ZodText.param_schema_text [] d) = params_ids c.
+Proof. exact param_text_ids. Qed.
+(* the module as (constant name, initialiser text) pairs in the printed order (module_text: every struct text is
+   the template text of a declaration rendering that type; for enums and unit structs, whose z.enum text has
+   no round trip yet, the premise is that the parser reads just z from the text): the constants the
+   specification parser reads from the texts are the constants of the module model, and the run-time oracle
+   accepts them *)
+Theorem C09_module_consts_text : forall o p tm, module_text o p tm -> zod_consts o p = Some (text_consts tm).
+Proof. exact module_text_consts. Qed.
+Theorem C09_module_decl_before_use_text : forall (o : orders) (p : project) tm,
+  ord_ok o -> in_domain p = true ->
+  kf_c07_field_result p = false -> kf_c07_odd_name p = false -> kf_c07_inline_mod p = false ->
+  kf_c07_payload_expr p = false ->
+  acyclic (spec_graph p) -> no_params_suffix p = true ->
+  module_text o p tm -> decl_before_use (text_consts tm) = true.
+Proof. intros o p tm Ho Hd K5 K6 K7 K8 Hac Hnp H. exact (module_decl_before_use_text o Ho p Hd K5 K6 K7 K8 Hac Hnp tm H). Qed.
+(* non-vacuity: the struct User of the sample project with keys alpha, beta, gamma; the whole sample project
+   as nine constant texts (eight types incl. the enum Status as z.enum, one parameter schema) meets module_text,
+   and the oracle, run on what lexer and parser read from the texts, accepts *)
+Example C09_ex_struct_text :
+  struct_sdef sample_dag (L "User") (gen_sdef sample_dag (L "User")) /\
+  Forall line_ok (TT.Model.C10Zod.s_fields (gen_sdef sample_dag (L "User"))) /\
+  text_ids (TT.Model.C10ZodText.struct_schema_text [] (gen_sdef sample_dag (L "User")))
+  = [L "z"; L "ProfileSchema"; L "z"; L "z"; L "z"; L "ItemSchema"; L "PlainSchema"].
+Proof. exact sample_user_text. Qed.
+Example C09_ex_module_text : module_text o_default sample_dag sample_tm /\
+  List.length sample_tm = 9 /\ decl_before_use (text_consts sample_tm) = true.
+Proof. split; [exact sample_module_text|exact sample_module_text_run]. Qed.
 
 (* outside the classes every schema reference to a defined type is a recorded dependency *)
 Theorem C09_edges_recorded : forall p, in_domain p = true ->
@@ -150,6 +206,12 @@ Print Assumptions C09_schema_identifiers.
 Print Assumptions C09_struct_identifiers.
 Print Assumptions C09_schema_identifiers_mapped.
 Print Assumptions C09_module_decl_before_use_mapped.
+Print Assumptions C09_struct_identifiers_text.
+Print Assumptions C09_struct_ids_text.
+Print Assumptions C09_params_identifiers_text.
+Print Assumptions C09_params_ids_text.
+Print Assumptions C09_module_consts_text.
+Print Assumptions C09_module_decl_before_use_text.
 Print Assumptions C09_edges_recorded.
 Print Assumptions C09_decl_before_use_recorded_graph.
 Print Assumptions C09_decl_before_use_type_graph.
